@@ -22,3 +22,5 @@ def check(ctx):
     # inventory (with the partition invariants its reasons cite) and the build path's error discipline belong here as well
     from . import panics
     panics.analyze(ctx, {"C15.h"})
+    from . import error_rules
+    error_rules.analyze(ctx, "C15.i")     # a failing build returns its error: none is discarded on the way
